@@ -502,10 +502,12 @@ def valgrind_run(plan_text):
     open(path, "w").write(plan_text)
     log = path + ".log"
     try:
-        subprocess.run(["valgrind", "-q", "--error-exitcode=9", "--log-file=" + log, qsim("plain"), "--replay", path],
-                       stdout=subprocess.DEVNULL, stderr=subprocess.DEVNULL, cwd=BUILD, timeout=900)
+        r = subprocess.run(["valgrind", "-q", "--error-exitcode=9", "--log-file=" + log, qsim("plain"), "--replay", path],
+                           stdout=subprocess.DEVNULL, stderr=subprocess.DEVNULL, cwd=BUILD, timeout=900)
         txt = open(log, errors="replace").read() if os.path.exists(log) else ""
-        return txt
+        # memcheck errors make the exit code 9 (a signal makes it negative); warnings it prints besides (stack switches, large
+        # ranges) are not findings
+        return txt if (r.returncode == 9 or r.returncode < 0) else ""
     except subprocess.TimeoutExpired:
         return ""
     finally:
